@@ -27,7 +27,10 @@ def replay (j : Json) : R Verdict := do
         pf := ("C11", s!"a guess that does not conform to the spec was accepted ({(fieldD j "defect").compress})") ::
               ("C01", "a guess that does not conform to the spec was accepted") :: pf
       match model with
-      | .ok mv => if mv != v then dis := some "accepted values differ"
+      | .ok mv => if mv != v then
+          dis := some "accepted values differ"
+          pf := ("C11", "an accepted guess was read as a different value than the one written") ::
+                ("C08", "an explicit initial guess would not be the first individual: it is read as a different value than the one written") :: pf
       | .error e =>
         dis := some s!"impl accepts, model rejects ({repr e})"
         -- a guess built from a conforming value by ONE defect (wrong array length, size out of bounds, unknown
@@ -56,7 +59,12 @@ def replay (j : Json) : R Verdict := do
   if kind == "roundtrip" then
     let v ← decValue (← field j "value")
     if !conf s v then return { case, kind := "ERROR", what := "generator produced a value that does not conform" }
-    if sortJ (toJson v) != sortJ doc then dis := some "to_json differs from the model's toJson"
+    if sortJ (toJson v) != sortJ doc then
+      dis := some "to_json differs from the model's toJson"
+      -- the JSON handed to the objective function is `to_json` of the (conforming) value: it must carry every
+      -- declared key and no other, arrays of the declared length, ... i.e. be the JSON of that value
+      pf := ("C01", "the JSON written for a conforming value is not the JSON of that value (a declared key / element is missing, extra or different)") ::
+            ("C16", "the JSON written for a conforming value is not the JSON of that value") :: pf
   let kindV := if !pf.isEmpty then "PROPFAIL" else if dis.isSome then "DISAGREE" else "ok"
   let what := match pf, dis with | (_, w) :: _, _ => w | [], some d => d | [], none => ""
   return { case, kind := kindV, props := (pf.map (·.1)).eraseDups, what, tags, size := 1, dis := dis.getD "",
